@@ -429,6 +429,11 @@ pub fn ntru_gen(
             .chain(g.coefficients.iter())
             .any(|c| c.abs() > lim_fg)
         {
+            #[cfg(feature = "verif-hooks")]
+            crate::verif::emit(crate::verif::Event::NtruCandidate {
+                verdict: 4,
+                gamma: 0.0,
+            });
             continue;
         }
 
@@ -457,6 +462,8 @@ pub fn ntru_gen(
                 .chain(capital_g.coefficients.iter())
                 .any(|c| c.abs() > lim_capital_fg)
             {
+                #[cfg(feature = "verif-hooks")]
+                crate::verif::emit(crate::verif::Event::NtruCandidate { verdict: 5, gamma });
                 continue;
             }
             #[cfg(feature = "verif-hooks")]
